@@ -28,6 +28,7 @@ pub mod c06;
 pub mod c07;
 pub mod c08;
 pub mod c10;
+pub mod c11;
 pub mod c12;
 pub mod c13;
 pub mod c14;
@@ -42,7 +43,7 @@ pub mod world;
 use scenario::MarketHistory;
 use simcore::{CheckSpec, Part};
 
-pub const PROPERTIES: &[&str] = &["C02", "C03", "C04", "C05", "C06", "C07", "C08", "C10", "C12", "C13", "C14"];
+pub const PROPERTIES: &[&str] = &["C02", "C03", "C04", "C05", "C06", "C07", "C08", "C10", "C11", "C12", "C13", "C14"];
 
 fn common_assumptions() -> Vec<String> {
     vec![
@@ -106,6 +107,10 @@ pub fn registry(property: &str) -> Option<CheckSpec> {
         "C10" => Some(spec("C10", "exploration", 400_000, 8_000_000, vec![
             "The round trip is a fork at a point of a simulated history (other positions open, impact pool empty or filled, funding and borrowing accrued); open and close run at the same prices and simulated time, including the store's pre-settlement when the configuration has it.".into(),
             "Value received = output + secondary output + claimable funding + claimable collateral for the user, at minimum prices; allowance two base units of each pool token.".into(),
+        ])),
+        "C11" => Some(spec("C11", "exploration", 400_000, 8_000_000, vec![
+            "The two closes run on forks of the same state; only the index price (min and max) is scaled, the pool token prices stay as they are even when the index token is the long token.".into(),
+            "Proportionality tolerance: one unit of USD plus the pnl of one base unit of the token size (derived in c11.rs).".into(),
         ])),
         _ => None,
     }
